@@ -12,6 +12,7 @@ import itertools
 
 import numpy as np
 
+from vmon import faults
 from vmon import taps, world
 from vmon.props import c01 as base
 
@@ -36,7 +37,7 @@ REQUIRED = dict(monitors=['sigma-is-sum-of-components', 'component-is-xsec-times
                           'model-is-product-of-contributions', 'contribution-is-product-of-components',
                           'order-independent', 'zero-abundance-changes-nothing', 'component-proportional-to-abundance',
                           'contribution-list-restored', 'store-contributions-equal-model-contrib'],
-                classes=['contrib:CIA', 'contrib:Rayleigh', 'contrib:SimpleClouds', 'contrib:FlatMie', 'contrib:LeeMie',
+                classes=['live:fault-before-evaluation', 'contrib:CIA', 'contrib:Rayleigh', 'contrib:SimpleClouds', 'contrib:FlatMie', 'contrib:LeeMie',
                          'contrib:HydrogenIon', 'model:emission', 'early-exit-observed', 'species>=2', 'restricted-grid',
                          'live:starts-at-zero', 'live:write-from-zero', 'live:write-to-zero', 'live:write-rescale'])
 _rec = {'yields': {}, 'sigma': {}}
@@ -412,6 +413,12 @@ def wl_live(ctx, rng):
         steps.append(v)
         model[victim] = v
         spec = dict(spec, gases=[dict(g, mix=v) if g['mol'] == victim else g for g in spec['gases']])
+        if rng.random() < 0.3:
+            site = faults.drive_into(ctx, rng, model.model)      # a rejected evaluation between write and evaluation
+            if site == 'rejected':
+                return
+            if site:
+                ctx.observe('live:fault-before-evaluation')
         live = base.run_model(ctx, model, build=False)
         if live is None:
             return
